@@ -172,7 +172,7 @@ extern "C" void harness() {
     CHECK(g.getEdgeNumber() == cnt, "getEdgeNumber counts the edges (one per copy)");
     if (n2 > 0) {
         CHECK(g.hasEdge(i, j) == (C[i][j] != 0), "hasEdge(i,j) iff the pair was added and not since removed");
-#if LABELLED
+#if LABELLED && !defined(NO_LABEL_CHECKS)
         CHECK(g.edgeLabels.count({i, j}) == (C[i][j] != 0 ? 1u : 0u), "the label store has an entry exactly for the existing edges");
         size_t pairs = 0; for (unsigned p = 0; p < NM; ++p) for (unsigned q = 0; q < NM; ++q) if (C[p][q]) ++pairs;
         CHECK(g.edgeLabels.size() == pairs, "the label store holds nothing but the labels of existing edges");
